@@ -3,6 +3,7 @@
     listed chain and, per registered connection, the stubs addressed by chain position. *)
 From Coq Require Import String.
 From TP Require Import Model.Prelude Extracted Model.Collection Proofs.C04Proofs.
+From TP Require Model.Toxics Model.Timed Model.Reconf Proofs.TxList.
 
 (** every path out of ToxicLink.RemoveToxic drops the removed toxic's stub (extracted from link.go) *)
 Theorem C04_remove_always_splices : remove_always_splices = true.
@@ -43,3 +44,34 @@ Print Assumptions C04_aligned_refuted_pinned.
 Theorem C04_links_stay_registered_until_written : link_unregistered_only_by_writer = true.
 Proof. reflexivity. Qed.
 Print Assumptions C04_links_stay_registered_until_written.
+
+(** on the link level, under every interleaving of the data path with the control actions of the
+    operations: which toxic and which toxicity decision each stub of a connection runs is changed by
+    the control actions only, each in exactly one way (data-path actions, time, interrupts,
+    flushes and closes change nothing) *)
+Theorem C04_only_control_actions_change_the_toxics : forall sigma l l',
+  Reconf.mixed_run l sigma = Some l' -> TxList.tes l' = TxList.tes_fold sigma (TxList.tes l).
+Proof. exact TxList.mixed_run_tes. Qed.
+Print Assumptions C04_only_control_actions_change_the_toxics.
+
+(** ... and the three operations, as the control actions their processes emit (Model/ReconfRun.v,
+    replayed against the code), do to that list exactly what the API does to its listing: an update
+    replaces the entry (attributes written first, then the stage restarted with the new decision), an
+    add inserts the new toxic behind the last stub, a remove deletes the entry *)
+Theorem C04_update_replaces : forall p tx eff ts,
+  TxList.tes_after (Reconf.CRestart p tx eff) (TxList.tes_after (Reconf.CInterrupt p) (TxList.tes_after (Reconf.CSetTx p tx) ts)) = TxList.upd_nth p (fun _ => (tx, eff)) ts.
+Proof. exact TxList.update_replaces. Qed.
+Print Assumptions C04_update_replaces.
+
+Theorem C04_add_inserts : forall p tx eff effp (ts : list (Toxics.toxic * bool)) txp effp0,
+  nth_error ts p = Some (txp, effp0) ->
+  TxList.tes_after (Reconf.CRestart p txp effp) (TxList.tes_after (Reconf.CInsertAfter p tx eff) (TxList.tes_after (Reconf.CInterrupt p) ts)) =
+  firstn (S p) (TxList.upd_nth p (fun _ => (txp, effp)) ts) ++ (tx, eff) :: skipn (S p) ts.
+Proof. exact TxList.add_inserts. Qed.
+Print Assumptions C04_add_inserts.
+
+Theorem C04_remove_deletes : forall p q txq effq (ts : list (Toxics.toxic * bool)),
+  (q < p)%nat ->
+  TxList.tes_after (Reconf.CRestart q txq effq) (TxList.tes_after (Reconf.CDelete p) ts) = TxList.upd_nth q (fun _ => (txq, effq)) (Reconf.remove_nth p ts).
+Proof. exact TxList.remove_deletes. Qed.
+Print Assumptions C04_remove_deletes.
